@@ -299,7 +299,9 @@ Read(n, k) ==                              \* n.k / n[k]: the only call that may
         /\ UNCHANGED <<tree, ovs, obs, coded, cyc>>
 
 ---------------------------------------------------------------------------
-P(S) == IF SimK = 0 \/ S = {} THEN S ELSE RandomSubset(PMin(SimK, Cardinality(S)), S)
+\* NOTE: TLC evaluates a constant-level expression once per run, so RandomSubset over a CONSTANT set (BOOLEAN, {1, 2}) would
+\* pick the same member for the whole simulation.  Mentioning a variable makes every P(..) a state-level expression.
+P(S) == IF SimK = 0 \/ S = {} THEN S ELSE RandomSubset(PMin(SimK, Cardinality(S)), IF act = <<>> THEN {} ELSE S)
 VD == Leafs \cup {PHV} \cup {m \in Nodes : kind[m] # "free" /\ parent[m] = NULL}
 OvVals == {v + 50 : v \in Leafs}            \* override values are leaves of their own (151, ...) so that their origin shows
 NextNode(n) ==
